@@ -85,6 +85,26 @@ def _returned_as_computed(c, fn):
                 continue
             bad.append((k, type(v).__name__, U(e)))
             break
+    # the names handed back are the lists the per-point loop filled: between that loop and the return none of them is re-bound to a
+    # function of itself (a clean-up pass over the collected values is the same element-wise map in another place)
+    ret_names = {x.id for x in ast.walk(ret.value) if isinstance(x, ast.Name)}
+    loops_ = [l_ for l_ in fn.body if isinstance(l_, (ast.For, ast.While))]
+    if loops_:
+        after = fn.body[fn.body.index(loops_[-1]) + 1:]
+        for st_ in after:
+            if isinstance(st_, (ast.Assign, ast.AugAssign)):
+                tg_ = st_.targets[0] if isinstance(st_, ast.Assign) else st_.target
+                b_ = tg_
+                while isinstance(b_, ast.Subscript):
+                    b_ = b_.value
+                if isinstance(b_, ast.Name) and b_.id in ret_names:
+                    v_ = st_.value
+                    shape_only = isinstance(st_, ast.Assign) and isinstance(tg_, ast.Name) and isinstance(v_, ast.Call) and (
+                        (isinstance(v_.func, ast.Name) and v_.func.id in ("array", "asarray", "stack", "vstack") and len(v_.args) == 1
+                         and U(v_.args[0]) == b_.id) or
+                        (isinstance(v_.func, ast.Attribute) and v_.func.attr in SHAPE_ONLY and U(v_.func.value) == b_.id))
+                    if not shape_only:
+                        bad.append((sorted(ret_names).index(b_.id), "a statement after the per-point loop", U(st_)))
     msg = ""
     if bad:
         k, what, text = bad[0]
@@ -99,6 +119,10 @@ def run(prog, tier):
     # restructured predictor
     from .axrules import gp_axis_obligations
     ax = gp_axis_obligations(prog, "axis-order", ["gradient", "spatial_derivatives"])
+    # every kernel / mean evaluation of the two derivative predictors gets its own part of the hyper-parameter vector
+    from .gpm import routing_obligations
+    ax = ax + [o for o in routing_obligations(prog, "GpRegressor", "hyperparameter-routing", REL)
+               if o.construct.endswith(".gradient") or o.construct.endswith(".spatial_derivatives")]
     try:
         obs, floors, meta = _run_main(prog, tier)
     except AnalysisError:
